@@ -122,6 +122,8 @@ class Gen:
     def print_stmt(self):
         r = self.rng
         n = r.choice([1, 1, 1, 2, 2, 3])
+        if r.random() < 0.06:
+            return {"k": "print", "items": []}      # a bare PRINT: ends the current line
         items = []
         for i in range(n):
             t = r.choice(["%", "&", "!", "#", "$", "%", "$"]) if self.allow_fractions else r.choice(["%", "&", "$"])
@@ -580,3 +582,249 @@ def emit_with_procs(prog, **kw):
         em.stmt({"k": p["k"], "name": p["name"], "params": [n for n, t in p["params"]], "static": p["static"], "body": p["body"], "id": None})
     em.flush()
     return "".join(t + e for t, e in em.lines), em.spans
+
+
+class GenJumps(Gen):
+    """Programs about GOTO/GOSUB/RETURN and ON ERROR/RESUME (C05). Every statement prints a unique trace token,
+    so the output is the control-flow history."""
+
+    FIXABLE = ["div", "subscript", "overflow", "left", "sub_div", "fn_div"]
+    UNFIXABLE = ["read", "return_without_gosub", "chr"]
+
+    def __init__(self, rng, **kw):
+        Gen.__init__(self, rng, **kw)
+        self.tok = 0
+        self.labels = 0
+        self.subs = []          # gosub subroutines: (label, body)
+        self.handlers = []      # (label, body)
+        self.resume_mode = None
+        self.handler_active = False
+        self.in_loop = 0
+
+    def trace(self, text=None):
+        self.tok += 1
+        return {"k": "print", "items": [("e", ("lit", "$", "T%d%s" % (self.tok, (" " + text) if text else "")))]}
+
+    def new_label(self, prefix):
+        self.labels += 1
+        return "%s%d" % (prefix, self.labels)
+
+    def state_print(self):
+        return {"k": "print", "items": [("e", ("var", "A%")), (";",), ("e", ("var", "Z%")), (";",), ("e", ("var", "IX%")), (";",), ("e", ("call", "ERR", []))]}
+
+    def fault(self, kind):
+        """A statement that fails at run time (while its cause has not been repaired)."""
+        if kind == "div":
+            return {"k": "assign", "lhs": ("var", "A%"), "rhs": ("bin", "/", ("lit", "%", 10), ("var", "Z%"))}
+        if kind == "subscript":
+            return {"k": "assign", "lhs": ("idx", "AR%", [("var", "IX%")]), "rhs": ("lit", "%", 7)}
+        if kind == "overflow":
+            return {"k": "assign", "lhs": ("var", "A%"), "rhs": ("var", "BIG&")}
+        if kind == "left":
+            return {"k": "assign", "lhs": ("var", "S$"), "rhs": ("call", "LEFT$", [("lit", "$", "abc"), ("var", "NEG%")])}
+        if kind == "chr":
+            return {"k": "assign", "lhs": ("var", "S$"), "rhs": ("call", "CHR$", [("lit", "%", 300)])}
+        if kind == "sub_div":
+            return {"k": "callsub", "name": "FaultSub", "args": [("var", "Z%")]}
+        if kind == "fn_div":
+            return {"k": "assign", "lhs": ("var", "A%"), "rhs": ("bin", "+", ("call", "FaultFn%", [("var", "Z%")]), ("lit", "%", 1))}
+        if kind == "read":
+            return {"k": "read", "vars": [("var", "A%")]}
+        if kind == "return_without_gosub":
+            return {"k": "return"}
+        raise ValueError(kind)
+
+    def fault_kinds(self):
+        if self.resume_mode == "retry":
+            return self.FIXABLE
+        return self.FIXABLE + self.UNFIXABLE
+
+    def fault_block(self):
+        kind = self.rng.choice(self.fault_kinds())
+        out = [self.trace("before " + kind), self.fault(kind), self.trace("after " + kind), self.state_print()]
+        if self.resume_mode == "label" and self.handler_active:
+            lab = self.new_label("R")
+            self.resume_labels.append(lab)
+        return out
+
+    def goto_out_of_loops(self):
+        r = self.rng
+        lab = self.new_label("Out")
+        depth = r.choice([1, 2, 2, 3])
+        self.loop_id += 1
+        names = ["I%d%%" % (self.loop_id * 10 + d) for d in range(depth)]
+        bounds = [(1, 5, 2), (10, 12, 1), (7, 1, -3), (0, 3, 1)]
+        inner = [{"k": "print", "items": [("e", ("lit", "$", "in")), (";",)] + [x for n in names for x in (("e", ("var", n)), (";",))]},
+                 {"k": "ifline", "cond": ("bin", "=", ("var", names[-1]), ("lit", "%", bounds[(depth - 1) % 4][0] + bounds[(depth - 1) % 4][2])), "then": [{"k": "goto", "label": lab}], "else": None}]
+        body = inner
+        target_level = r.randrange(0, depth)      # the label sits inside the loop of this level (0 = outside all)
+        for d in reversed(range(depth)):
+            lo, hi, st = bounds[d % 4]
+            loop_kind = r.choice(["for", "for", "while", "do"]) if d != depth - 1 else "for"
+            if loop_kind == "for":
+                loop = {"k": "for", "var": names[d], "lo": ("lit", "%", lo), "hi": ("lit", "%", hi), "step": ("lit", "%", st) if st != 1 or r.random() < 0.5 else None, "body": body, "next_var": r.random() < 0.5}
+                stmts = [loop]
+            else:
+                cond = ("bin", "<=" if st > 0 else ">=", ("var", names[d]), ("lit", "%", hi))
+                incr = {"k": "assign", "lhs": ("var", names[d]), "rhs": ("bin", "+", ("var", names[d]), ("lit", "%", st))}
+                init = {"k": "assign", "lhs": ("var", names[d]), "rhs": ("lit", "%", lo)}
+                if loop_kind == "while":
+                    loop = {"k": "while", "cond": cond, "body": body + [incr]}
+                else:
+                    loop = {"k": "do", "pos": "top", "kind": "while", "cond": cond, "body": body + [incr]}
+                stmts = [init, loop]
+            if d == target_level and d > 0:
+                # the jump target is inside the body of the enclosing loop, after this loop
+                stmts = stmts + [{"k": "label", "name": lab}, {"k": "print", "items": [("e", ("lit", "$", "landed")), (";",), ("e", ("var", names[d - 1]))]}]
+            body = stmts
+        if target_level == 0:
+            body = body + [{"k": "label", "name": lab}, self.trace("landed outside")]
+        return body + [{"k": "print", "items": [("e", ("lit", "$", "counters"))] + [x for n in names for x in ((";",), ("e", ("var", n)))]}]
+
+    def gosub_call(self, depth=0):
+        r = self.rng
+        lab = self.new_label("Sub")
+        body = [self.trace("in " + lab)]
+        if depth < 2 and r.random() < 0.4:
+            body += self.gosub_call(depth + 1)
+        if r.random() < 0.35:
+            body += self.fault_block()
+        if r.random() < 0.3:
+            body += [self.simple_safe()]
+        body.append(self.trace("leaving " + lab))
+        if r.random() < 0.15 and depth == 0:
+            ret_lab = self.new_label("Ret")
+            self.pending_main_labels.append(ret_lab)
+            body.append({"k": "return", "label": ret_lab})
+        else:
+            body.append({"k": "return"})
+        self.subs.append((lab, body))
+        return [self.trace("gosub " + lab), {"k": "gosub", "label": lab}, self.trace("back from " + lab)]
+
+    def simple_safe(self):
+        r = self.rng
+        return {"k": "assign", "lhs": ("var", r.choice(["B%", "C%"])), "rhs": ("bin", "+", ("var", "B%"), ("lit", "%", r.choice([1, 2, 3])))}
+
+    def counted_goto(self):
+        lab = self.new_label("Loop")
+        self.loop_id += 1
+        c = "K%d%%" % self.loop_id
+        return [{"k": "assign", "lhs": ("var", c), "rhs": ("lit", "%", 0)}, {"k": "label", "name": lab},
+                {"k": "assign", "lhs": ("var", c), "rhs": ("bin", "+", ("var", c), ("lit", "%", 1))},
+                {"k": "print", "items": [("e", ("lit", "$", lab)), (";",), ("e", ("var", c))]},
+                {"k": "ifline", "cond": ("bin", "<", ("var", c), ("lit", "%", self.rng.choice([2, 3]))), "then": [{"k": "goto", "label": lab}], "else": None}]
+
+    def nested_fault(self):
+        """A failing statement at a chosen position of a block."""
+        r = self.rng
+        fb = self.fault_block()
+        pos = r.choice(["first", "middle", "last"])
+        pre = [self.trace("block start")] if pos != "first" else []
+        post = [self.trace("block end")] if pos != "last" else []
+        if pos == "last":
+            fb = fb[:2]       # the failing statement is the last statement of the block
+        body = pre + fb + post
+        k = r.choice(["for", "if", "select", "while", "ifelse"])
+        self.loop_id += 1
+        if k == "for":
+            st = r.choice([None, ("lit", "%", 1), ("lit", "%", -1)])
+            lo, hi = (1, 2) if not (st and st[2] < 0) else (2, 1)
+            return [{"k": "for", "var": "N%d%%" % self.loop_id, "lo": ("lit", "%", lo), "hi": ("lit", "%", hi), "step": st, "body": body, "next_var": True}, self.trace("after for")]
+        if k == "while":
+            c = "W%d%%" % self.loop_id
+            return [{"k": "assign", "lhs": ("var", c), "rhs": ("lit", "%", 0)},
+                    {"k": "while", "cond": ("bin", "<", ("var", c), ("lit", "%", 2)), "body": [{"k": "assign", "lhs": ("var", c), "rhs": ("bin", "+", ("var", c), ("lit", "%", 1))}] + body},
+                    self.trace("after while")]
+        if k == "if":
+            return [{"k": "if", "arms": [(("bin", "=", ("lit", "%", 1), ("lit", "%", 1)), body)], "else": [self.trace("else arm (must not run)")]}, self.trace("after if")]
+        if k == "ifelse":
+            return [{"k": "if", "arms": [(("bin", "=", ("lit", "%", 1), ("lit", "%", 2)), [self.trace("then arm (must not run)")]),
+                                         (("bin", "=", ("lit", "%", 2), ("lit", "%", 2)), body)], "else": [self.trace("else arm (must not run)")]}, self.trace("after if")]
+        return [{"k": "select", "subj": ("lit", "%", 2), "cases": [([("val", ("lit", "%", 1))], [self.trace("case 1 (must not run)")]),
+                                                                  ([("val", ("lit", "%", 2))], body),
+                                                                  ([("val", ("lit", "%", 3))], [self.trace("case 3 (must not run)")])], "else": [self.trace("case else (must not run)")]}, self.trace("after select")]
+
+    def handler_switch(self):
+        r = self.rng
+        x = r.random()
+        if x < 0.55:
+            lab = self.new_label("H")
+            mode = self.resume_mode
+            body = [{"k": "print", "items": [("e", ("lit", "$", lab + " ERR")), (";",), ("e", ("call", "ERR", []))]}]
+            # repair the causes (needed for plain RESUME, harmless otherwise)
+            if mode == "retry" or r.random() < 0.4:
+                body += [{"k": "assign", "lhs": ("var", "Z%"), "rhs": ("lit", "%", 2)}, {"k": "assign", "lhs": ("var", "IX%"), "rhs": ("lit", "%", 1)},
+                         {"k": "assign", "lhs": ("var", "BIG&"), "rhs": ("lit", "%", 5)}, {"k": "assign", "lhs": ("var", "NEG%"), "rhs": ("lit", "%", 1)}]
+            if r.random() < 0.4:
+                body.append({"k": "assign", "lhs": ("var", "C%"), "rhs": ("bin", "+", ("var", "C%"), ("lit", "%", 100))})
+            if mode == "retry":
+                body.append({"k": "resume", "mode": "bare"})
+            elif mode == "next":
+                body.append({"k": "resume", "mode": "next"})
+            else:
+                rl = self.new_label("Resume")
+                self.pending_main_labels.append(rl)
+                body.append({"k": "resume", "mode": "label", "label": rl})
+            self.handlers.append((lab, body))
+            self.handler_active = True
+            return [{"k": "onerror", "mode": "goto", "label": lab}]
+        if x < 0.8:
+            self.handler_active = False
+            return [{"k": "onerror", "mode": "zero"}]
+        self.handler_active = True
+        return [{"k": "onerror", "mode": "resume_next"}]
+
+    def program(self):
+        r = self.rng
+        self.resume_mode = r.choice(["retry", "next", "next", "label"])
+        self.resume_labels = []
+        self.pending_main_labels = []
+        main = [{"k": "dim", "text": "DIM AR%(1 TO 3)", "decls": [{"name": "AR%", "type": "%", "dims": [(("lit", "%", 1), ("lit", "%", 3))]}]},
+                {"k": "assign", "lhs": ("var", "IX%"), "rhs": ("lit", "%", r.choice([9, 0, 4]))},
+                {"k": "assign", "lhs": ("var", "BIG&"), "rhs": ("lit", "&", 40000)},
+                {"k": "assign", "lhs": ("var", "NEG%"), "rhs": ("lit", "%", -1)}]
+        use_procs = False
+        n = r.randrange(3, 9)
+        for _ in range(n):
+            x = r.random()
+            if x < 0.2:
+                main += self.handler_switch()
+            elif x < 0.4:
+                main += self.fault_block() if (self.handler_active or r.random() < 0.08) else [self.trace("idle")]
+            elif x < 0.55:
+                main += self.nested_fault() if self.handler_active else self.counted_goto()
+            elif x < 0.7:
+                main += self.gosub_call()
+            elif x < 0.85:
+                main += self.goto_out_of_loops()
+            else:
+                main += self.counted_goto()
+            # labels that RETURN label / RESUME label jump to are placed at top level of the main module
+            while self.pending_main_labels and r.random() < 0.7:
+                lab = self.pending_main_labels.pop(0)
+                main += [{"k": "label", "name": lab}, self.trace("at " + lab)]
+        for lab in self.pending_main_labels:
+            main += [{"k": "label", "name": lab}, self.trace("at " + lab)]
+        main.append(self.trace("end of main"))
+        main.append({"k": "end"})
+        for lab, body in self.subs:
+            main.append({"k": "label", "name": lab})
+            main += body
+        for lab, body in self.handlers:
+            main.append({"k": "label", "name": lab})
+            main += body
+        procs = [
+            {"k": "sub", "name": "FaultSub", "params": [("X%", "%")], "static": False, "rtype": None,
+             "body": [{"k": "print", "items": [("e", ("lit", "$", "FaultSub in"))]},
+                      {"k": "assign", "lhs": ("var", "Y%"), "rhs": ("bin", "/", ("lit", "%", 10), ("var", "X%"))},
+                      {"k": "print", "items": [("e", ("lit", "$", "FaultSub out")), (";",), ("e", ("var", "Y%"))]}]},
+            {"k": "function", "name": "FaultFn%", "params": [("X%", "%")], "static": False, "rtype": "%",
+             "body": [{"k": "print", "items": [("e", ("lit", "$", "FaultFn in"))]},
+                      {"k": "assign", "lhs": ("var", "FaultFn%"), "rhs": ("bin", "/", ("lit", "%", 20), ("var", "X%"))}]},
+        ]
+        main = flatten_multi(main)
+        counter = [0]
+        number_statements(main, counter)
+        for p in procs:
+            number_statements(p["body"], counter)
+        return {"main": main, "procs": procs, "shared": set()}
